@@ -432,6 +432,23 @@ class TapeReaderContracts:
 
 
     # ------------------------------------------------------------------------------------------- read_file
+    @staticmethod
+    def rf_ground(A, n, p0, H, wf):
+        """read_file's pre-condition, ground part: the name-file block at H (first 55 3C 00 at or after p0), printable name bytes,
+        byte-valued fields, a non-negative total length"""
+        out = [p0 <= H, H + 21 <= n, sel(A, H) == 0x55, sel(A, H + 1) == 0x3C, sel(A, H + 2) == 0x00]
+        for k in range(8):
+            out.append(And(sel(A, H + 4 + k) >= 32, sel(A, H + 4 + k) <= 126))
+        for k in range(8, 15):
+            out.append(And(sel(A, H + 4 + k) >= 0, sel(A, H + 4 + k) <= 255))
+        out.append(wf.OFFf(wf.K) >= 0)         # a length (sum of the block lengths)
+        return And(*out)
+
+    @staticmethod
+    def rf_filler(A, p0, H, q):
+        """read_file's pre-condition, instance q: a byte between the pointer and the name-file block is 00 or 55"""
+        return Implies(And(p0 <= q, q < H), Or(sel(A, q) == 0x00, sel(A, q) == 0x55))
+
     def s_read_file(self, env, cell, F):
         p, n, A, buf, c = self._setup(env, F)
         p0 = env.hole_int("p0", 0, 400000)
@@ -440,16 +457,11 @@ class TapeReaderContracts:
         wf = self.WF(A, n, H + 21, K)
         key = KEY + "read_file"
         p.assume(wf.base())
-        p.assume(And(p0 <= H, H + 21 <= n, sel(A, H) == 0x55, sel(A, H + 1) == 0x3C, sel(A, H + 2) == 0x00))
-        for k in range(8):
-            p.assume(And(sel(A, H + 4 + k) >= 32, sel(A, H + 4 + k) <= 126))
-        for k in range(8, 15):
-            p.assume(And(sel(A, H + 4 + k) >= 0, sel(A, H + 4 + k) <= 255))
-        p.assume(sel(wf.OFF, K) >= 0)         # a length (sum of the block lengths)
+        p.assume(self.rf_ground(A, n, p0, H, wf))
         v = Verifier(env, F.it)
         st = {}
         st["expect"] = lambda: [H]
-        st["at_result"] = lambda r: [Implies(And(p0 <= r + 1, r + 1 < H), Or(sel(A, r + 1) == 0x00, sel(A, r + 1) == 0x55))]
+        st["at_result"] = lambda r: [self.rf_filler(A, p0, H, r + 1)]
         self._skip_contract(env, v, p, st)
 
         def apply_rb(v_, interp, func, args):
